@@ -1474,4 +1474,13 @@ theorem polynomial_object_state_is_terms_and_vartype :
     Generated.PolyState.instanceAttributes = ["_terms", "vartype"]
     ∧ Generated.PolyState.reductionUses = ["items", "variables", "vartype"] := by decide
 
+/-- `relabel_variables` inside a history (the history theorems above cover it: `PolyOp.relabel`): `abc − a/2` with `a ↦ x, b ↦ 7`
+    becomes `x·7·c − x/2`; mapping two variables to one label, or onto an existing variable that is not relabelled itself, is refused
+    (`ValueError`), and the object is then unchanged by construction (`applyOp` returns no state) -/
+example : (objectAfter .binary [([.str "a", .str "b", .str "c"], 1), ([.str "a"], -1/2)] [.relabel [(.str "a", .str "x"), (.str "b", .int 7)]]).toOption
+      = some [([.str "x", .int 7, .str "c"], 1), ([.str "x"], -1/2)]
+    ∧ (applyOp [([.str "a", .str "b"], (1 : Rat))] (.relabel [(.str "a", .str "q"), (.str "b", .str "q")])).toOption = none
+    ∧ (applyOp [([.str "a", .str "b"], (1 : Rat))] (.relabel [(.str "a", .str "b")])).toOption = none := by
+  decide +kernel
+
 end C15
